@@ -417,6 +417,58 @@ static void sc_connect_prep(void) {
 
 /* ---- hybrid API */
 #define H(x) do { htp_status_t _r = (x); fd_note(_r == HTP_OK ? "k" : (_r == HTP_ERROR ? "e" : "o")); } while (0)
+/* a hybrid-API user stops working on a transaction at the first HTP_ERROR */
+#define HX(x) do { htp_status_t _r = (x); fd_note(_r == HTP_OK ? "k" : (_r == HTP_ERROR ? "e" : "o")); if (_r == HTP_ERROR) return; } while (0)
+static void sc_hybrid_tx1(htp_tx_t *tx) {
+        HX(htp_tx_state_request_start(tx));
+        HX(htp_tx_req_set_method(tx, "POST", 4, HTP_ALLOC_COPY));
+        htp_tx_req_set_method_number(tx, HTP_M_POST);
+        HX(htp_tx_req_set_uri(tx, "/p/q?a=1&b=2", 12, HTP_ALLOC_COPY));
+        HX(htp_tx_req_set_protocol(tx, "HTTP/1.1", 8, HTP_ALLOC_REUSE));
+        htp_tx_req_set_protocol_number(tx, HTP_PROTOCOL_1_1);
+        HX(htp_tx_state_request_line(tx));
+        HX(htp_tx_req_set_header(tx, "Host", 4, "www.example.com", 15, HTP_ALLOC_COPY));
+        HX(htp_tx_req_set_header(tx, "Content-Type", 12, "application/x-www-form-urlencoded", 33, HTP_ALLOC_COPY));
+        HX(htp_tx_req_set_header(tx, "Content-Length", 14, "7", 1, HTP_ALLOC_REUSE));
+        HX(htp_tx_req_set_header(tx, "Cookie", 6, "s=1; t=2", 8, HTP_ALLOC_COPY));
+        HX(htp_tx_req_set_header(tx, "Authorization", 13, "Basic YTpi", 10, HTP_ALLOC_COPY));
+        HX(htp_tx_state_request_headers(tx));
+        HX(htp_tx_req_process_body_data(tx, "c=3&", 4));
+        HX(htp_tx_req_process_body_data(tx, "d=4", 3));
+        HX(htp_tx_state_request_complete(tx));
+        htp_param_t *p = htp_tx_req_get_param(tx, "c", 1);
+        if (p != NULL) fd_touch_bstr(p->value);
+        HX(htp_tx_state_response_start(tx));
+        HX(htp_tx_res_set_status_line(tx, "HTTP/1.1 200 OK", 15, HTP_ALLOC_COPY));
+        htp_tx_res_set_protocol_number(tx, HTP_PROTOCOL_1_1);
+        htp_tx_res_set_status_code(tx, 200);
+        HX(htp_tx_res_set_status_message(tx, "OK", 2, HTP_ALLOC_COPY));
+        HX(htp_tx_state_response_line(tx));
+        HX(htp_tx_res_set_header(tx, "Content-Type", 12, "text/html", 9, HTP_ALLOC_COPY));
+        HX(htp_tx_res_set_header(tx, "Content-Length", 14, "5", 1, HTP_ALLOC_COPY));
+        HX(htp_tx_state_response_headers(tx));
+        HX(htp_tx_res_process_body_data(tx, "hello", 5));
+        HX(htp_tx_state_response_complete(tx));
+        fd_touch_tx(tx);
+        H(htp_tx_destroy(tx));
+}
+static void sc_hybrid_tx2(htp_tx_t *tx) {
+        HX(htp_tx_state_request_start(tx));
+        HX(htp_tx_req_set_line(tx, "GET /x/y?z=1 HTTP/1.0", 21, HTP_ALLOC_COPY));
+        HX(htp_tx_state_request_line(tx));
+        HX(htp_tx_req_set_header(tx, "X-A", 3, "1", 1, HTP_ALLOC_COPY));
+        HX(htp_tx_req_set_headers_clear(tx));
+        HX(htp_tx_req_set_header(tx, "X-B", 3, "2", 1, HTP_ALLOC_COPY));
+        HX(htp_tx_state_request_headers(tx));
+        HX(htp_tx_state_request_complete(tx));
+        HX(htp_tx_state_response_start(tx));
+        HX(htp_tx_res_set_status_line(tx, "HTTP/1.0 500 Oops", 17, HTP_ALLOC_REUSE));
+        HX(htp_tx_state_response_line(tx));
+        HX(htp_tx_res_set_header(tx, "X-C", 3, "3", 1, HTP_ALLOC_COPY));
+        HX(htp_tx_res_set_headers_clear(tx));
+        HX(htp_tx_state_response_headers(tx));
+        HX(htp_tx_state_response_complete(tx));
+}
 static void sc_hybrid_run(void) {
     fd_sc.all_hooks = 1; fd_sc.urlenc = 1; fd_sc.multipart = 1; fd_sc.log_level = HTP_LOG_NOTICE; fd_sc.personality = HTP_SERVER_GENERIC;
     fd_opt_runtime_hooks = 1;
@@ -426,59 +478,13 @@ static void sc_hybrid_run(void) {
     if (connp == NULL) { htp_config_destroy(cfg); return; }
     htp_connp_open(connp, "127.0.0.1", 32768, "127.0.0.1", 80, NULL);
     htp_tx_t *tx = htp_connp_tx_create(connp);
-    if (tx != NULL) {
-        H(htp_tx_state_request_start(tx));
-        H(htp_tx_req_set_method(tx, "POST", 4, HTP_ALLOC_COPY));
-        htp_tx_req_set_method_number(tx, HTP_M_POST);
-        H(htp_tx_req_set_uri(tx, "/p/q?a=1&b=2", 12, HTP_ALLOC_COPY));
-        H(htp_tx_req_set_protocol(tx, "HTTP/1.1", 8, HTP_ALLOC_REUSE));
-        htp_tx_req_set_protocol_number(tx, HTP_PROTOCOL_1_1);
-        H(htp_tx_state_request_line(tx));
-        H(htp_tx_req_set_header(tx, "Host", 4, "www.example.com", 15, HTP_ALLOC_COPY));
-        H(htp_tx_req_set_header(tx, "Content-Type", 12, "application/x-www-form-urlencoded", 33, HTP_ALLOC_COPY));
-        H(htp_tx_req_set_header(tx, "Content-Length", 14, "7", 1, HTP_ALLOC_REUSE));
-        H(htp_tx_req_set_header(tx, "Cookie", 6, "s=1; t=2", 8, HTP_ALLOC_COPY));
-        H(htp_tx_req_set_header(tx, "Authorization", 13, "Basic YTpi", 10, HTP_ALLOC_COPY));
-        H(htp_tx_state_request_headers(tx));
-        H(htp_tx_req_process_body_data(tx, "c=3&", 4));
-        H(htp_tx_req_process_body_data(tx, "d=4", 3));
-        H(htp_tx_state_request_complete(tx));
-        htp_param_t *p = htp_tx_req_get_param(tx, "c", 1);
-        if (p != NULL) fd_touch_bstr(p->value);
-        H(htp_tx_state_response_start(tx));
-        H(htp_tx_res_set_status_line(tx, "HTTP/1.1 200 OK", 15, HTP_ALLOC_COPY));
-        htp_tx_res_set_protocol_number(tx, HTP_PROTOCOL_1_1);
-        htp_tx_res_set_status_code(tx, 200);
-        H(htp_tx_res_set_status_message(tx, "OK", 2, HTP_ALLOC_COPY));
-        H(htp_tx_state_response_line(tx));
-        H(htp_tx_res_set_header(tx, "Content-Type", 12, "text/html", 9, HTP_ALLOC_COPY));
-        H(htp_tx_res_set_header(tx, "Content-Length", 14, "5", 1, HTP_ALLOC_COPY));
-        H(htp_tx_state_response_headers(tx));
-        H(htp_tx_res_process_body_data(tx, "hello", 5));
-        H(htp_tx_state_response_complete(tx));
-        fd_touch_tx(tx);
-        H(htp_tx_destroy(tx));
-    }
-    /* second tx: headers cleared and re-set, private configuration */
+    if (tx != NULL) sc_hybrid_tx1(tx);
+    /* second tx: request line set as a whole, headers cleared and re-set, private configuration */
     tx = htp_connp_tx_create(connp);
     if (tx != NULL) {
         htp_cfg_t *priv = htp_config_copy(cfg);
         if (priv != NULL) htp_tx_set_config(tx, priv, HTP_CONFIG_PRIVATE);
-        H(htp_tx_state_request_start(tx));
-        H(htp_tx_req_set_line(tx, "GET /x/y?z=1 HTTP/1.0", 21, HTP_ALLOC_COPY));
-        H(htp_tx_state_request_line(tx));
-        H(htp_tx_req_set_header(tx, "X-A", 3, "1", 1, HTP_ALLOC_COPY));
-        H(htp_tx_req_set_headers_clear(tx));
-        H(htp_tx_req_set_header(tx, "X-B", 3, "2", 1, HTP_ALLOC_COPY));
-        H(htp_tx_state_request_headers(tx));
-        H(htp_tx_state_request_complete(tx));
-        H(htp_tx_state_response_start(tx));
-        H(htp_tx_res_set_status_line(tx, "HTTP/1.0 500 Oops", 17, HTP_ALLOC_REUSE));
-        H(htp_tx_state_response_line(tx));
-        H(htp_tx_res_set_header(tx, "X-C", 3, "3", 1, HTP_ALLOC_COPY));
-        H(htp_tx_res_set_headers_clear(tx));
-        H(htp_tx_state_response_headers(tx));
-        H(htp_tx_state_response_complete(tx));
+        sc_hybrid_tx2(tx);
     }
     htp_connp_destroy_all(connp);
     htp_config_destroy(cfg);
